@@ -58,9 +58,13 @@ def _tri_eval(test, read, value):
     if isinstance(test, ast.Compare) and len(test.ops) == 1:
         a, b = test.left, test.comparators[0]
         other = b if a is read else (a if b is read else None)
-        if other is None or not isinstance(other, ast.Constant):
+        if other is None:
             return None
-        op, c = test.ops[0], other.value
+        try:
+            c = ast.literal_eval(other)
+        except (ValueError, TypeError, SyntaxError):
+            return None
+        op = test.ops[0]
         if isinstance(op, (ast.Eq,)):
             return value == c
         if isinstance(op, (ast.NotEq,)):
@@ -449,10 +453,45 @@ def run(ctx):
     gav = ctx.func("client:KafkaClient.get_api_version")
     cg = ctx.cfg(gav)
     fg = ctx.facts(gav, kill_on_suspend=False)
+    # the "no table" state: the one falsy constant (other than None, which means "not discovered yet") ever stored
+    kc_funcs = [x for x in prog.funcs.values() if x.module.name == "client"]
+    const_stores = []
+    for f_ in kc_funcs:
+        for x in walk_body_shallow(f_.body):
+            if isinstance(x, ast.Assign) and any(self_attr(t) == "_api_versions" for t in x.targets):
+                for leaf_ in ([x.value.body, x.value.orelse] if isinstance(x.value, ast.IfExp) else [x.value]):
+                    try:
+                        const_stores.append((f_, x, ast.literal_eval(leaf_)))
+                    except (ValueError, TypeError, SyntaxError):
+                        pass
+    fallbacks = [v for _, _, v in const_stores if v is not None]
+    need(fallbacks, "no constant fallback state stored in _api_versions")
+    S = fallbacks[0]
+    S_txt = repr(S)
+    ok = all(type(v) is type(S) and v == S for v in fallbacks) and not S and not isinstance(S, bool)
+    cmp_bad = []
+    for f_ in sorted(prog.funcs.values(), key=lambda f: f.qname):
+        for x in walk_body_shallow(f_.body):
+            if isinstance(x, ast.Compare) and len(x.ops) == 1 and any(isinstance(y, ast.Attribute) and y.attr == "_api_versions" for y in (x.left, x.comparators[0])):
+                other = x.comparators[0] if isinstance(x.left, ast.Attribute) and x.left.attr == "_api_versions" else x.left
+                try:
+                    c = ast.literal_eval(other)
+                except (ValueError, TypeError, SyntaxError):
+                    continue
+                if c is not None and not (type(c) is type(S) and c == S):
+                    cmp_bad.append("%s: `%s`" % (f_.qname, norm(x)))
+    r.check(ok and not cmp_bad, "client:KafkaClient#one-fallback-state", "the fallback state of _api_versions is not one falsy constant used by every "
+            "store and comparison: stores %s, comparisons with another constant %s" % (sorted(set(map(repr, fallbacks))), cmp_bad),
+            where(gav, gav.node), "a reader comparing with the old constant takes the fallback state for a discovered table: format-1 messages in a v0 request")
     rets = [n for n in cg.nodes if n.kind == "stmt" and isinstance(n.stmt, ast.Return)]
-    zero = [n for n in rets if norm(n.stmt.value) == "0" and ("self._api_versions == 0", True) in fg[n.id]]
+
+    def _is_fallback(facts_):
+        return facts_imply(prog, gav, facts_, {"z": "self._api_versions == %s" % S_txt}, lambda env: env["z"]) or (
+            ("self._api_versions", False) in facts_ and ("self._api_versions is None", False) in facts_) or (
+            ("self._api_versions", False) in facts_)
+    zero = [n for n in rets if const_value(prog, gav, n.stmt.value) == 0 and not isinstance(const_value(prog, gav, n.stmt.value), bool) and _is_fallback(fg[n.id])]
     disc = [n for n in cg.nodes if any(call_name(c) == "fetch_api_versions" for c in n.calls())]
-    tests = [n for n in cg.nodes if n.kind == "test" and norm(n.stmt.test) == "self._api_versions is None"]
+    tests = [n for n in cg.nodes if n.kind == "test" and norm(at(ctx, gav, n.id, n.stmt.test)) in ("self._api_versions is None", "not self._api_versions is not None")]
     ok = len(zero) == 1 and len(rets) == 2 and bool(disc) and ("self._api_versions is None", True) in fg[disc[0].id] and bool(tests) and all(
         cg.dominates([tests[0].id], n.id) for n in rets) and disc[0].suspends
     r.check(ok, "%s#fallback-zero" % gav.qname, "version lookup does not discover first and fall back to 0 when discovery failed", where(gav, gav.node))
@@ -462,11 +501,16 @@ def run(ctx):
     sets = [n for n in ch.nodes if n.kind == "stmt" and isinstance(n.stmt, ast.Assign) and self_attr(n.stmt.targets[0]) == "_api_versions"]
     ok = len(sets) == 2
     for n in sets:
-        if norm(n.stmt.value) == "0":
-            ok = ok and any(t.endswith(".error_code != 0") and pol for t, pol in fh[n.id])
+        try:
+            cv = ast.literal_eval(n.stmt.value)
+            is_c = True
+        except (ValueError, TypeError, SyntaxError):
+            cv, is_c = None, False
+        if is_c:
+            ok = ok and cv is not None and type(cv) is type(S) and cv == S and any(t.endswith(".error_code != 0") and pol for t, pol in fh[n.id])
         else:
             ok = ok and any(t.endswith(".error_code != 0") and not pol for t, pol in fh[n.id]) and norm(n.stmt.value).endswith(".api_versions")
-    r.check(ok, "%s#table-or-zero" % hau.qname, "version table is not stored exactly on a successful discovery, 0 otherwise", where(hau, hau.node))
+    r.check(ok, "%s#table-or-zero" % hau.qname, "version table is not stored exactly on a successful discovery, the fallback state otherwise", where(hau, hau.node))
 
     # ---- R9 the correlation id a request travels under is the one its bytes were encoded with
     r = ctx.rule("R9", "every send site passes the correlation id with which the request bytes were encoded (no re-assignment in between)", 6, "A+B")
@@ -483,8 +527,12 @@ def run(ctx):
                     continue
                 if not (isinstance(ida, ast.Name) and isinstance(rqa, ast.Name)) or (ida.id in f.params and rqa.id in f.params):
                     continue
-                encs = [m for m in cf.nodes if m.kind == "stmt" and isinstance(m.stmt, ast.Assign) and any(
-                    isinstance(t, ast.Name) and t.id == rqa.id for t in m.stmt.targets) and isinstance(m.stmt.value, ast.Call)]
+                # where the bytes that are sent were encoded (through copies of the local)
+                og_ = value_origins(cf, n.id, rqa, params=f.params) or []
+                encs = [cf.nodes[dn_] for dn_, e_ in og_ if isinstance(e_, ast.Call) and cf.nodes[dn_].kind == "stmt" and isinstance(cf.nodes[dn_].stmt, ast.Assign)
+                        and cf.nodes[dn_].stmt.value is e_]
+                if len(encs) != len(og_):
+                    encs = []
                 idefs = [m for m in cf.nodes if m.kind == "stmt" and isinstance(m.stmt, ast.Assign) and any(
                     isinstance(t, ast.Name) and t.id == ida.id for t in m.stmt.targets)]
                 ok = len(encs) == 1 and bool(idefs)
@@ -532,7 +580,7 @@ def run(ctx):
                 if not handled and node and node[0].kind == "test":
                     # a test that sends the undiscovered state (None) down the same arm as the fallback state (0) is safe:
                     # format 0 / version 0 are valid whatever discovery decides later
-                    handled = _tri_eval(node[0].stmt.test, x, None) is not None and _tri_eval(node[0].stmt.test, x, None) == _tri_eval(node[0].stmt.test, x, 0)
+                    handled = _tri_eval(node[0].stmt.test, x, None) is not None and _tri_eval(node[0].stmt.test, x, None) == _tri_eval(node[0].stmt.test, x, S)
                 r.check(handled, "%s#read(%s)" % (f.qname, chain),
                         "`%s` is read where it may still be None (undiscovered): `None != 0` selects message format 1 before "
                         "discovery; discovery may then fall back to version 0" % chain, where(f, x),
@@ -605,10 +653,18 @@ MUTANTS = [
      "new": "        if api_version <= 2:\n            return v0(data)\n        elif api_version >= 1:", "expect": "C04.R6"},
     {"id": "decoder-other-version", "file": "client.py", "old": "decoder = partial(KafkaCodec.decode_fetch_response, api_version=api_ver)",
      "new": "decoder = partial(KafkaCodec.decode_fetch_response, api_version=0)", "expect": "C04.R6"},
+    {"id": "fallback-state-two-constants", "file": "client.py",
+     "old": "            log.info(\"Unable to set API versions for %r, using fallback of 0\", self)\n            self._api_versions = 0",
+     "new": "            log.info(\"Unable to set API versions for %r, using fallback of 0\", self)\n            self._api_versions = []",
+     "expect": "C04.R6", "note": "seeded C04-5 as it was before F5a: the readers still compare with 0"},
     {"id": "little-endian", "file": "kafkacodec.py", "old": "message += struct.pack(\">hii\", acks, timeout, len(grouped_payloads))",
      "new": "message += struct.pack(\"<hii\", acks, timeout, len(grouped_payloads))", "expect": "C04.R8"},
 ]
 TWINS = [
+    {"id": "fallback-state-empty-list", "note": "seeded C04-5, harmless since F5a made the producer test truthiness",
+     "edits": [("client.py", "self._api_versions = None if enable_protocol_version_discovery else 0", "self._api_versions = None if enable_protocol_version_discovery else []"),
+               ("client.py", "        if self._api_versions == 0:\n            return 0", "        if not self._api_versions:\n            return 0"),
+               ("client.py", "using fallback of 0\", self)\n            self._api_versions = 0", "using fallback of 0\", self)\n            self._api_versions = []")]},
     {"id": "format-split", "file": "kafkacodec.py", "old": "message += struct.pack(\">hii\", acks, timeout, len(grouped_payloads))",
      "new": "message += struct.pack(\">h\", acks)\n        message += struct.pack(\">ii\", timeout, len(grouped_payloads))"},
     {"id": "locals-renamed", "file": "kafkacodec.py",
